@@ -1,0 +1,50 @@
+//go:build verif
+
+// Contracts for the verifier in /verif (govc). Comment-only: no declarations.
+
+package cert
+
+// ---- C05: the TLS configuration handed to crypto/tls is derived from the user's settings as documented
+//@ func (m *Config) GetCaCertificates
+//@   property C05
+//@   pure
+//@   trusted "reads the CA bundle from the configuration or from a file"
+
+//@ func (m *Config) GetX509KeyPair
+//@   property C05
+//@   pure
+//@   trusted "reads and decrypts the key pair (file system, external program, crypto libraries)"
+//@   ensures err != nil ==> result == nil
+
+//@ func (m *Config) addCaCertificates
+//@   property C05
+//@   safe
+//@   modifies config.ClientCAs, config.RootCAs
+//@   ensures err == nil && config != nil ==> config.RootCAs == config.ClientCAs || (config.RootCAs == old(config.RootCAs) && config.ClientCAs == old(config.ClientCAs))   :one_pool_for_both_roles
+
+//@ func (m *Config) GetTlsConfig
+//@   property C05
+//@   safe
+//@   pure
+//@   ensures err != nil ==> result == nil                                                         :no_config_on_error
+//@   ensures err == nil ==> result != nil && spec_fresh(result)
+//@   ensures err == nil ==> !result.InsecureSkipVerify                                            :verification_on_by_default
+//@   ensures err == nil ==> result.ClientAuth == tls.NoClientCert                                 :no_client_auth_by_default
+//@   ensures err == nil ==> result.RootCAs == result.ClientCAs                                    :one_pool_for_both_roles
+
+//@ func (m *ClientConfig) GetTlsConfig
+//@   property C05
+//@   safe
+//@   pure
+//@   ensures err != nil ==> conf == nil
+//@   ensures err == nil ==> conf != nil && conf.InsecureSkipVerify == m.InsecureSkipVerify        :skip_verify_only_if_insecure_flag
+//@   ensures err == nil ==> conf.ClientAuth == tls.NoClientCert
+
+//@ func (m *ServerConfig) GetTlsConfig
+//@   property C05
+//@   safe
+//@   pure
+//@   ensures err != nil ==> conf == nil
+//@   ensures err == nil ==> conf != nil && !conf.InsecureSkipVerify
+//@   ensures err == nil && m.RequireClientCert ==> conf.ClientAuth == tls.RequireAndVerifyClientCert   :client_certificates_enforced
+//@   ensures err == nil && !m.RequireClientCert ==> conf.ClientAuth == tls.NoClientCert
